@@ -20,6 +20,10 @@ class LenSeq(Seq):
     def __bool__(self):
         return True
 
+    def __getitem__(self, index):
+        # sequence content is never the subject where LenSeq is used
+        return Seq("")
+
 
 def mkrecord(n, circular, seq=None):
     rec = Record(Seq(""))
